@@ -4,6 +4,7 @@ import Driver.Validator
 import Driver.Wire
 import Driver.DecoderApi
 -- @family rte2e Drv.E2E.hRtE2E
+-- @family redec Drv.E2E.hReDec
 /-!
 Driver of the family `rte2e` (syntax: harness/fam_rte2e.go): typed messages → the REAL validator → encoder →
 bytes → decoder → decoded messages. The model answer is `Fit.E2E.encodeChain` followed by `Fit.E2E.decodeChain`
@@ -17,6 +18,12 @@ structure Line where
   c : Cfg
   o : Fit.DecApi.Opts
   files : List FileIn
+  /-- the decoder runs with the standard factory (`df:std`) -/
+  std : Bool := false
+  /-- `px=1`: component expansion ON under a factory whose component graph the model does not have (the standard factory):
+  both sides print the decoded messages WITHOUT the fields created by expansion and with the values of the wire fields that
+  are destinations of a component of their message MASKED — reading (ii) of the property -/
+  px : Bool := false
 
 def parseHdrTok (s : String) : Option FileIn :=
   match stripPrefix? s "H" with
@@ -53,8 +60,25 @@ def parseLine (args : List String) : Option Line :=
     let w := W.mkOpts (W.kvGet kv "a") (W.kvGet kv "h") (W.kvGet kv "l")
     some { c := { w := w, pvOpt := W.kvGet kv "pv", vo := va.o, D := va.D, profileVersion := Fit.Gen.Wire.profileVersion },
            o := { chk := W.kvGet kv "chk" != 0, exp := W.kvGet kv "exp" != 0, fac := fac },
-           files := files }
+           files := files, std := d == "df:std", px := W.kvGet kv "px" != 0 }
   | _ => none
+
+/-- the field numbers of message `m` that are destinations of a component of some field of that message in the decoder's
+factory (standard factory: regenerated table `Fit.Gen.Wire.stdCompDests`, sub-field components included) -/
+def compDests (l : Line) (m : Nat) : List Nat :=
+  if l.std then (Fit.Gen.Wire.stdCompDests.filter (·.1 == m)).map (·.2)
+  else (l.o.fac.filter (·.mesgNum == m)).flatMap fun e => e.info.comps.map (·.fieldNum)
+
+/-- a decoded message for reading (ii): expanded fields left out, destinations masked (flag m, value u8:00) -/
+def showMasked (l : Line) (m : Fit.DecApi.Msg) : String :=
+  let ds := compDests l m.num
+  let fs := (m.fields.filter (!·.expanded)).map fun f =>
+    if ds.contains f.num then
+      let fl := DecApi.flagsOf f
+      s!"F{f.num}:{hexByte f.bt}:{if fl == "-" then "m" else fl ++ "m"}:u8:00"
+    else DecApi.showField f
+  "M" ++ toString m.num ++ "h" ++ toString m.header ++ "{" ++ ";".intercalate fs ++ "|" ++
+    ";".intercalate (m.devs.map fun d => s!"D{d.idx}.{d.num}:{printValue d.value}") ++ "}"
 
 def encErrName : EncErr → String
   | .empty => "err:empty"
@@ -74,9 +98,7 @@ def outName : Option Fit.DecApi.Out → String
 /-- the last sentence of the property on the model: the decoded messages handed back to the encoder (`ofDecoded`), encoded
 under the same options, decoded again -/
 def reencode (l : Line) (fits : List Fit.DecApi.Fit) : String :=
-  let files : List FileIn := fits.map fun f =>
-    { hsize := f.hdr.size, hpv := f.hdr.protoVer, hprofile := f.hdr.profileVer, msgs := f.msgs.map ofDecoded }
-  let (kepts, bytes, err) := encodeChain l.c files 0
+  let (kepts, bytes, err) := encodeChain l.c (backFiles fits) 0
   match err with
   | some (i, e) => s!"{encErrName e}@{i}"
   | none =>
@@ -109,8 +131,8 @@ def answer (l : Line) : String :=
     | some (i, e) => s!"{encErrName e}@{i}"
   let vs := (kept.zipIdx.flatMap fun (ms, i) => ms.map fun m => s!"V{i}:{printMessage m}")
   let (fits, e) := decodeChain l.o bytes
-  let ss := (fits.zipIdx.flatMap fun (f, i) => f.msgs.map fun m => s!"S{i}:{DecApi.showMsg m}")
-  let re := if e.isNone && !fits.isEmpty then reencode l fits else "-"
+  let ss := (fits.zipIdx.flatMap fun (f, i) => f.msgs.map fun m => s!"S{i}:{if l.px then showMasked l m else DecApi.showMsg m}")
+  let re := if e.isNone && !fits.isEmpty && !l.px then reencode l fits else "-"
   " ".intercalate ([s!"enc={encS}"] ++ vs ++ [s!"dec={outName e}", s!"ns={fits.length}"] ++ ss ++ [s!"re={re}"])
 
 /-! ### parsing the implementation's answer -/
@@ -195,6 +217,62 @@ def showN (m : NMsg) : String :=
   s!"M{m.num}\{" ++ ";".intercalate (m.fields.map fun f => s!"F{f.num}:{hexByte f.bt}:{printValue f.value}") ++ "|" ++
     ";".intercalate (m.devs.map fun d => s!"D{d.idx}.{d.num}:{printValue d.value}") ++ "}"
 
+/-- a decoded field of a `px=1` line: (number, base type, value) and whether the value is masked -/
+def parseMField (s : String) : Option (NField × Bool) :=
+  match s.splitOn ":" with
+  | [h, bt, fl, tag, payload] =>
+    if !h.startsWith "F" then none else do
+      let num ← parseDec (h.drop 1).toString 256
+      let bt ← parseHexByte bt
+      let v ← parseValueTP tag payload
+      some (⟨num, bt, v⟩, fl.contains 'm')
+  | _ => none
+
+def parseMMsg (s : String) : Option (Nat × List (NField × Bool) × List NDev) :=
+  if !s.startsWith "M" || !s.endsWith "}" then none else
+  match ((s.drop 1).dropEnd 1).toString.splitOn "{" with
+  | [head, body] =>
+    match head.splitOn "h", body.splitOn "|" with
+    | [num, _], [fl, dl] => do
+      let num ← parseDec num 65536
+      let fs ← if fl.isEmpty then some [] else (fl.splitOn ";").mapM parseMField
+      let ds ← if dl.isEmpty then some [] else (dl.splitOn ";").mapM parseDDev
+      some (num, fs, ds)
+    | _, _ => none
+  | _ => none
+
+/-- reading (ii) of the property on the implementation's answer of a `px=1` line (real decoder, component expansion ON,
+standard factory): after deleting the fields marked expanded (the harness left them out), every decoded sequence is the
+strict normal form of what validation retained — message numbers, order, per field number and base type, value; developer
+fields — except the VALUES of wire fields that are destinations of a component of their message (masked on both sides) -/
+def propMasked (l : Line) (impl : String) : String :=
+  match parseImpl impl with
+  | none => if impl == "bad-op" then "n/a" else "fail:answer"
+  | some r =>
+    if r.enc.startsWith "panic" then "fail:encode-panic"
+    else if r.kept.isEmpty then "n/a"
+    else if r.dec != "end" then s!"fail:decode-{r.dec}"
+    else if r.ns != r.kept.length then "fail:sequence-count"
+    else if !(r.kept.all (inDomain l.o.fac)) then "n/a"
+    else
+      let toks := ((impl.splitOn " ").filter (· ≠ "")).filter (·.startsWith "S")
+      match groupTok "S" parseMMsg toks with
+      | none => "fail:answer"
+      | some seqs =>
+        let seqs := seqs ++ List.replicate (r.kept.length - seqs.length) []
+        let eqM (want : NMsg) (got : Nat × List (NField × Bool) × List NDev) : Bool :=
+          want.num == got.1 && want.devs == got.2.2 && want.fields.length == got.2.1.length &&
+            (want.fields.zip got.2.1).all fun (w, g) => w.num == g.1.num && w.bt == g.1.bt && (g.2 || w.value == g.1.value)
+        match (r.kept.zip seqs).zipIdx.findSome? (fun ((kept, got), i) =>
+            let want := seqBack strictValue false l.o.fac l.c.w {} kept
+            if want.length != got.length then some s!"fail:seq{i}:message-count"
+            else
+              match (want.zip got).zipIdx.find? (fun p => !eqM p.1.1 p.1.2) with
+              | some (_, k) => some s!"fail:seq{i}.msg{k}:expansion-on"
+              | none => none) with
+        | some why => why
+        | none => "ok"
+
 /-- the property on the implementation's answer: what was decoded is the normal form of what validation retained -/
 def prop (l : Line) (impl : String) : String :=
   match parseImpl impl with
@@ -217,6 +295,9 @@ def prop (l : Line) (impl : String) : String :=
             some s!"fail:seq{i}.msg{k}:want={(want[k]?.map showN).getD "-"}"
           -- sharper (deterministic): the timestamp is in front exactly where the encoder compressed it
           else if want != got then some s!"fail:seq{i}:timestamp-placement"
+          -- rule (c) taken apart (`C01_e2e_roundtrip_strict_partial`): every string of a string array keeps its place —
+          -- the decoder's dropping of empty strings is not part of what the property allows
+          else if !seqMatches strictValue false l.o.fac l.c.w.arch {} kept got then some s!"fail:seq{i}:empty-string-dropped"
           else none) with
       | some why => why
       | none => "ok"
@@ -227,7 +308,8 @@ def kf (l : Line) : String :=
   -- (the class of KF-C01-boolarr — a decoded typedef.Bool array holding a byte other than 0 / 1 / 255 — is gone: fixed in /repo 5da5106)
   let ids := (if kept.any (kfZero l.o.fac) then ["KF-C01-zero"] else []) ++
     (if kept.any (kfArr l.o.fac) then ["KF-C01-arr"] else []) ++
-    (if kept.any (kfFFFD l.o.fac) then ["KF-C01-fffd"] else [])
+    (if kept.any (kfFFFD l.o.fac) then ["KF-C01-fffd"] else []) ++
+    (if kept.any (kfEmpty l.o.fac) then ["KF-C01-emptystr"] else [])
   if ids.isEmpty then "-" else ",".intercalate ids
 
 def hRtE2E : Handler := fun r =>
@@ -237,7 +319,190 @@ def hRtE2E : Handler := fun r =>
     match r.mode with
     | .model => answer l
     | .spec => "n/a"
-    | .prop => prop l r.impl
+    | .prop => if l.px then propMasked l r.impl else prop l r.impl
     | .kf => kf l
+
+/-! ### op `redec`: the last sentence of the property on ARBITRARY decoder output (syntax: harness/fam_rte2e_redec.go) -/
+
+structure ReLine where
+  c : Cfg
+  o : Fit.DecApi.Opts
+  bytes : List Nat
+  verbose : Bool
+
+def parseReLine (args : List String) : Option ReLine :=
+  let (kv, rest) := W.splitKV args
+  match rest with
+  | [a, b, c, d, e] => do
+    let va ← parseVArgs a b c
+    let fac ← (stripPrefix? d "df:").bind DecApi.parseFactory
+    let bytes ← (stripPrefix? e "b:").bind unhex
+    let w := W.mkOpts (W.kvGet kv "a") (W.kvGet kv "h") (W.kvGet kv "l")
+    some { c := { w := w, pvOpt := W.kvGet kv "pv", vo := va.o, D := va.D, profileVersion := Fit.Gen.Wire.profileVersion },
+           o := { chk := W.kvGet kv "chk" != 0, exp := W.kvGet kv "exp" != 0, fac := fac },
+           bytes := bytes, verbose := kv.lookup "v" != some "0" }
+  | _ => none
+
+/-- a retained message in the decapi syntax (header byte 0) -/
+def showKept (m : Message) : String :=
+  let fl (f : Field) (b : FieldBase) : String :=
+    let s := (if b.array then "a" else "") ++ (if b.nameKnown then "n" else "") ++ (if b.profileBool then "b" else "") ++
+      (if f.isExpanded then "x" else "")
+    if s.isEmpty then "-" else s
+  "M" ++ toString m.num ++ "h0{" ++ ";".intercalate (m.fields.filterMap fun f => f.base.map fun b =>
+      s!"F{b.num}:{hexByte b.baseType}:{fl f b}:{printValue f.value}") ++ "|" ++
+    ";".intercalate (m.devFields.map fun d => s!"D{d.devIdx}.{d.num}:{printValue d.value}") ++ "}"
+
+def reGroup (pre : String) (items : List (List String)) (verbose : Bool) : List String :=
+  if verbose then items.zipIdx.flatMap fun (ms, i) => ms.map fun s => s!"{pre}{i}:{s}"
+  else
+    let flat := items.zipIdx.flatMap fun (ms, i) => ms.map fun s => s!"{i}:{s}"
+    [s!"{pre}#{flat.length}.{DecApi.digest flat false}"]
+
+/-- what the three steps of a `redec` line produce -/
+structure ReObs where
+  dec : String
+  S : List (List Fit.DecApi.Msg)
+  enc : String
+  V : List (List Message)
+  dec2 : String
+  T : List (List Fit.DecApi.Msg)
+
+def zeroHdr (m : Fit.DecApi.Msg) : Fit.DecApi.Msg := { m with header := 0 }
+
+/-- the model: `decodeChain`, `backFiles`, `encodeChain`, `decodeChain` -/
+def reModel (l : ReLine) : ReObs :=
+  let (fits, e) := decodeChain l.o l.bytes
+  let S := fits.map (·.msgs)
+  if fits.isEmpty || e == some .panic then ⟨outName e, S, "-", [], "-", []⟩ else
+  let (kepts, bytes, err) := encodeChain l.c (backFiles fits) 0
+  match err with
+  | some (i, er) => ⟨outName e, S, s!"{encErrName er}@{i}", kepts, "-", []⟩
+  | none =>
+    let (fits2, e2) := decodeChain l.o bytes
+    ⟨outName e, S, "ok", kepts, outName e2, fits2.map fun f => f.msgs.map zeroHdr⟩
+
+/-- `re=`: every re-decoded sequence is what validation retained, values as they are (the predicate of `C01_e2e_reencode`) -/
+def reVerdict (l : ReLine) (r : ReObs) : String :=
+  if r.enc != "ok" || r.dec2 != "end" then "-"
+  else if r.V.length != r.T.length then "diff@count"
+  else
+    match (r.V.zip r.T).zipIdx.find? (fun p => !seqMatches idValue false l.o.fac l.c.w.arch {} p.1.1 (p.1.2.map proj)) with
+    | none => "same"
+    | some ((k, g), i) =>
+      if k.length != g.length then s!"diff@{i}"
+      else
+        let rec firstBad (vst : Fit.Validator.State) : List Message → List NMsg → Nat → Nat
+          | m :: ms, n :: ns, j =>
+            let vst' := Fit.Validator.remember vst m.num m.fields
+            if (msgVariants idValue false l.o.fac l.c.w.arch vst'.fds m).contains n then firstBad vst' ms ns (j + 1) else j
+          | _, _, j => j
+        s!"diff@{i}.{firstBad {} k (g.map proj) 0}"
+
+def reAnswer (l : ReLine) : String :=
+  let r := reModel l
+  let head := [s!"dec={r.dec}", s!"ns={r.S.length}"] ++ reGroup "S" (r.S.map (·.map DecApi.showMsg)) l.verbose
+  if r.enc == "-" then " ".intercalate (head ++ ["enc=-", "dec2=-", "ns2=0", "re=-"]) else
+  let mid := [s!"enc={r.enc}"] ++ reGroup "V" (r.V.map (·.map showKept)) l.verbose
+  if r.enc != "ok" then " ".intercalate (head ++ mid ++ ["dec2=-", "ns2=0", "re=-"]) else
+  " ".intercalate (head ++ mid ++ [s!"dec2={r.dec2}", s!"ns2={r.T.length}"] ++
+    reGroup "T" (r.T.map (·.map DecApi.showMsg)) l.verbose ++ [s!"re={reVerdict l r}"])
+
+def parseFlagsD (s : String) : Option (Bool × Bool × Bool × Bool) :=
+  if s == "-" then some (false, false, false, false)
+  else if s.all (fun c => c == 'a' || c == 'n' || c == 'b' || c == 'x') then
+    some (s.contains 'a', s.contains 'n', s.contains 'b', s.contains 'x')
+  else none
+
+def parseDFieldFull (s : String) : Option Fit.DecApi.DField :=
+  match s.splitOn ":" with
+  | [h, bt, fl, tag, payload] =>
+    if !h.startsWith "F" then none else do
+      let num ← parseDec (h.drop 1).toString 256
+      let bt ← parseHexByte bt
+      let (a, n, b, x) ← parseFlagsD fl
+      let v ← parseValueTP tag payload
+      some ⟨num, bt, n, b, a, v, x⟩
+  | _ => none
+
+/-- a message in the decapi syntax, with the attributes of its fields -/
+def parseDMsgFull (s : String) : Option Fit.DecApi.Msg :=
+  if !s.startsWith "M" || !s.endsWith "}" then none else
+  match ((s.drop 1).dropEnd 1).toString.splitOn "{" with
+  | [head, body] =>
+    match head.splitOn "h", body.splitOn "|" with
+    | [num, hd], [fl, dl] => do
+      let num ← parseDec num 65536
+      let hd ← parseDec hd 256
+      let fs ← if fl.isEmpty then some [] else (fl.splitOn ";").mapM parseDFieldFull
+      let ds ← if dl.isEmpty then some [] else (dl.splitOn ";").mapM parseDDev
+      some ⟨hd, num, fs, ds.map fun d => ⟨d.num, d.idx, d.value⟩⟩
+    | _, _ => none
+  | _ => none
+
+def parseReImpl (s : String) : Option ReObs := do
+  let toks := (s.splitOn " ").filter (· ≠ "")
+  let dec ← toks.findSome? (stripPrefix? · "dec=")
+  let enc ← toks.findSome? (stripPrefix? · "enc=")
+  let dec2 ← toks.findSome? (stripPrefix? · "dec2=")
+  let ns ← (toks.findSome? (stripPrefix? · "ns=")).bind String.toNat?
+  let ns2 ← (toks.findSome? (stripPrefix? · "ns2=")).bind String.toNat?
+  let pad {α} (n : Nat) (l : List (List α)) : List (List α) := l ++ List.replicate (n - l.length) []
+  let S ← groupTok "S" parseDMsgFull (toks.filter fun t => t.startsWith "S" && !t.startsWith "S#")
+  let V ← groupTok "V" parseDMsgFull (toks.filter fun t => t.startsWith "V" && !t.startsWith "V#")
+  let T ← groupTok "T" parseDMsgFull (toks.filter fun t => t.startsWith "T" && !t.startsWith "T#")
+  let nv := if enc == "ok" then ns else ((enc.splitOn "@").getLast?.bind String.toNat?).getD 0
+  some ⟨dec, pad ns S, enc, (pad nv V).map (·.map ofDecoded), dec2, pad ns2 T⟩
+
+/-- **the last sentence of the property on what the implementation did**: the decoder returned `S`; the encoder accepted it
+and validation retained `V`; decoding the written bytes again gave `T`. Demanded: (i) `V` is `S` as it is minus the
+invalid-valued fields (`Fit.E2E.retained`: nothing converted or restored), (ii) `T` is `V`, values as they are, each
+message with its first timestamp where it was or in front (`seqMatches idValue` — the predicate of `C01_e2e_reencode`). -/
+def reJudge (l : ReLine) (r : ReObs) : String :=
+  if r.dec == "panic" then "fail:decode-panic"
+  else if r.S.isEmpty then "n/a"                                  -- the decoder returned nothing
+  else if r.enc.startsWith "panic" then "fail:encode-panic"
+  else if r.enc != "ok" then "n/a"                                -- the encoder did not accept the decoded messages
+  else if r.dec2 != "end" then s!"fail:redecode-{r.dec2}"
+  else if r.V.length != r.S.length || r.T.length != r.S.length then "fail:sequence-count"
+  else
+    match (r.S.zip r.V).zipIdx.findSome? (fun ((s, v), i) =>
+        let want := retained l.c.vo.omitInvalid {} s
+        if want == v then none
+        else some s!"fail:retained-differs@{i}.{((want.zip v).zipIdx.find? (fun p => p.1.1 != p.1.2)).map (·.2) |>.getD (min want.length v.length)}") with
+    | some why => why
+    | none =>
+      let v := reVerdict l r
+      if v == "same" then "ok" else s!"fail:reencode-{v}"
+
+def reProp (l : ReLine) (impl : String) : String :=
+  if impl == "bad-op" then "n/a" else
+  if (impl.splitOn " ").any (fun t => t.startsWith "S#") then
+    -- large streams are answered with digests: the predicate is evaluated on the model's objects when the implementation's
+    -- answer is the model's (otherwise the correspondence check reports the line)
+    if impl == reAnswer l then reJudge l (reModel l) else "n/a"
+  else
+    match parseReImpl impl with
+    | none => "fail:answer"
+    | some r => reJudge l r
+
+/-- classes of DECODER OUTPUT (evaluated on what the MODEL decodes from the bytes of the line): the three classes
+`C01_e2e_reencode` excludes -/
+def reKf (l : ReLine) : String :=
+  let (fits, _) := decodeChain l.o l.bytes
+  let ids := (if fits.any (fun f => kfUndersized f.msgs) then ["KF-C01-undersized"] else []) ++
+    (if fits.any (fun f => kfPieces f.msgs) then ["KF-C01-strpieces"] else []) ++
+    (if fits.any (fun f => kfF64Dev l.c.vo {} f.msgs) then ["KF-C01-f64dev"] else [])
+  if ids.isEmpty then "-" else ",".intercalate ids
+
+def hReDec : Handler := fun r =>
+  match parseReLine r.args with
+  | none => if r.mode == .model then "bad-op" else if r.mode == .kf then "-" else "n/a"
+  | some l =>
+    match r.mode with
+    | .model => reAnswer l
+    | .spec => "n/a"
+    | .prop => reProp l r.impl
+    | .kf => reKf l
 
 end Drv.E2E
